@@ -119,6 +119,14 @@ WellFormedContent(c) ==
   c.op = "commit" => /\ (c.persist => c.confirmed) /\ (c.persistid => ~c.confirmed)
                      /\ (c.timeout => c.confirmed)
 ContentCases == {c \in Contents : WellFormedContent(c)}
+(* requests built with a mandatory parameter left out (no target, no source / configuration): the library may    *)
+(* refuse them or fill in a default - what it then sends must still be permitted                                  *)
+IncompleteContents ==
+     {Content("edit-config", "none", sr, "none", "none", FALSE, FALSE, FALSE, FALSE, "none", "none") : sr \in {"config", "none"}}
+  \cup {Content("edit-config", t, "none", "none", "none", FALSE, FALSE, FALSE, FALSE, "none", "none") : t \in Datastores}
+  \cup {Content("copy-config", "none", sr, "none", "none", FALSE, FALSE, FALSE, FALSE, "none", "none") : sr \in Datastores \cup {"config", "none"}}
+  \cup {Content("copy-config", t, "none", "none", "none", FALSE, FALSE, FALSE, FALSE, "none", "none") : t \in Datastores}
+  \cup {Content(o, "none", "none", "none", "none", FALSE, FALSE, FALSE, FALSE, "none", "none") : o \in {"delete-config", "lock", "unlock", "validate", "get-config"}}
 
 ---------------------------------------------------------------------------
 (* C12.  Server hello: which base versions it advertises, the shape of its *)
